@@ -97,7 +97,7 @@ def units(tier, seed):
         for c in sorted(r.sample(range(nchunks), max(1, int(nchunks * 0.015)))):
             out.append({"kind": "enum", "n": 3, "start": c * CHUNK, "stop": (c + 1) * CHUNK,
                         "sample": "1.5%", "seed": seed})
-        for i in range(120):
+        for i in range(600):
             out.append({"kind": "rand", "i": i, "seed": seed})
     else:
         for n in (1, 2, 3):
@@ -247,15 +247,17 @@ def _check_random(res, case):
     from .. import transforms as T
 
     g = gen.G("C07r/%s/%s" % (case["seed"], case["i"]))
-    template = g.pick(["cat|cat", "cat|mr", "mr|cat", "cat", "cat_date|cat", "cat|cat|cat",
-                       "mr|mr", "cai|cac", "cac|cai"])
+    focus = case["i"] % 3 == 0  # derived MR items under an explicit order, every third case
+    template = g.pick(["mr", "cat|mr", "mr|cat", "mr|mr"]) if focus else g.pick(
+        ["cat|cat", "cat|mr", "mr|cat", "cat", "cat_date|cat", "cat|cat|cat", "mr|mr",
+         "cai|cac", "cac|cai"])
     N = g.pick([8, 15, 25])
     nparts = len(template.split("|"))
     sizes = [g.r.randint(1, 8) for _ in range(nparts)]
     facets = cases.random_facets(g, template, N, sizes=sizes, p_zero=0.25)
     derived = False
     for role, v in facets:
-        if role == "mr" and g.chance(0.6):
+        if role == "mr" and (focus or g.chance(0.6)):
             derived |= _derive_items(g, v)
     tr = {}
     cases.attach_insertions(g, facets, tr, n=g.r.randint(1, 5))
@@ -273,9 +275,10 @@ def _check_random(res, case):
                 dd["elements"] = els
         if g.chance(0.3):
             dd["prune"] = True
-        if g.chance(0.6):
+        if g.chance(0.6) or (focus and o.facets[d][0] == "mr"):
             od = T.random_order(g, ids, [], [], [], "rows", nd == 1, [],
-                                kinds=["explicit", "explicit", "payload_order"])
+                                kinds=["explicit"] if focus else
+                                ["explicit", "explicit", "payload_order"])
             if od:
                 dd["order"] = od
         if not dd:
